@@ -1,11 +1,13 @@
 #!/usr/bin/env python3
 """deepbisect.py — for each deep-recursion entry point, the smallest nesting depth at which the harness child dies
 (8 MiB stack, the harness build of this tree).  Used once to set min_depth in known_findings.json; not run by checks."""
-import sys, json
-sys.path.insert(0, '/verif/bin')
+import sys, json, os
+ROOT = os.path.dirname(os.path.dirname(os.path.abspath(__file__)))
+sys.path.insert(0, os.path.join(ROOT, 'bin'))
 from jbv import core
-subs = sys.argv[1:] or ['parse', 'parse_drop', 'decode', 'encode', 'to_string', 'compare', 'comparable', 'contains', 'strip_nulls', 'to_serde_json']
-res = {}
+subs = sys.argv[1:] or ['parse', 'parse_drop', 'decode', 'encode', 'to_string', 'compare', 'comparable', 'contains', 'strip_nulls', 'to_serde_json', 'delete_by_keypath']
+OUT = os.path.join(ROOT, 'findings', 'deep-first-crash.json')
+res = json.load(open(OUT)) if sys.argv[1:] and os.path.exists(OUT) else {}      # named entry points: update those, keep the rest
 for sub in subs:
     for kind in ('arr', 'obj'):
         def ok(n):
@@ -23,4 +25,4 @@ for sub in subs:
                 hi = mid
         res['%s/%s' % (sub, kind)] = hi
         print(sub, kind, 'first crash about', hi, flush=True)
-json.dump(res, open('/verif/findings/deep-first-crash.json', 'w'), indent=1)
+json.dump(res, open(OUT, 'w'), indent=1)
